@@ -68,7 +68,7 @@ def design_run(chk, idx, progs):
                  'PROPERTY IfacesTerminateM\nPROPERTY SolverLiveM\n'
                  'CHECK_DEADLOCK FALSE\n' % len(progs))
     r = tlc.run(os.path.join(d, 'MCC.tla'), os.path.join(d, 'MCC.cfg'),
-                workers=2, timeout=1200)
+                workers=2, timeout=1200 if chk.tier == 'quick' else 5400)
     if r.get('error') or r.get('timeout'):
         raise MachineryError('TLC failed on %s:\n%s' % (progs, r['out'][-2000:]))
     return r
